@@ -4,6 +4,7 @@
 //! cases and writes `<outdir>/cases.tsv` (request \t impl answer \t tags) and
 //! `<outdir>/stats.json`.
 mod case;
+mod frun;
 mod props;
 mod recorder;
 mod rng;
